@@ -23,9 +23,10 @@ Definition single_driverb (nl : netlist) : bool :=
     (nets nl).
 
 (* (hypotheses hold, timing_map per wire (wires order), timing_map key order, max_length,
-    critical paths, fanout per wire, paths per query) *)
+    critical paths, fanout per wire, paths per query, (mid, bits, ports, isrom) per memory,
+    paths_multi over the given source and destination lists) *)
 Definition c17_case (nl : netlist) (tab : list (Z * (Z * Z))) (cp_limit : Z)
-    (queries : list (Z * Z)) :=
+    (queries : list (Z * Z)) (srcs dsts : list Z) :=
   let dl := tab_delay tab nl in
   let tm := timing_map nl dl in
   ( b2z (wfb nl && delays_okb nl dl && reg_dests_okb nl && single_driverb nl),
@@ -34,4 +35,7 @@ Definition c17_case (nl : netlist) (tab : list (Z * (Z * Z))) (cp_limit : Z)
     max_length nl dl,
     map (fun wp => (fst wp, path_ix nl (snd wp))) (critical_path nl dl cp_limit),
     map (fun x => fanout nl (wname x)) (wires nl),
-    map (fun q => map (path_ix nl) (paths nl (fst q) (snd q))) queries ).
+    map (fun q => map (path_ix nl) (paths nl (fst q) (snd q))) queries,
+    map (fun x => (mid x, mem_shape nl x)) (mems nl),
+    map (fun row => (fst row, map (fun e => (fst e, map (path_ix nl) (snd e))) (snd row)))
+        (paths_multi nl srcs dsts) ).
